@@ -1,4 +1,5 @@
 import PysnarkModel.Model.Gadgets
+import PysnarkModel.Model.Select
 import PysnarkModel.Gen.Poseidon
 /-!
 # Model of the hash gadgets (`pysnark/poseidon_hash.py`, `pysnark/ggh_hash.py`)
@@ -12,19 +13,46 @@ Compositions of the tracer model's own operations on `LinComb`:
 * `x.value %= modulus` (in place, on fresh objects only) → `reduceValue`
 * `LinComb.ONE` / `LinComb.ZERO` in the padding          → `s.one` / `LinComb.zero`
 
-The parameter set is an argument (`Gen.PoseidonParams`); `lookupParams` models which one the
-module picks at import time.
+The parameter set is an argument (`Gen.PoseidonParams`); `lookupParams`/`paramsInUse` model which
+one the module picks at import time (the table entry of the backend name `pysnark.runtime`
+reports, see `Model/Select.lean`).
 -/
 namespace Pysnark.Hash
 open Pysnark Pysnark.Gen
 
-/-! ## parameter selection (`poseidon_hash.py` l.14-22) -/
+/-! ## parameter selection (`poseidon_hash.py` l.14-19) -/
 
-/-- `backend = os.environ["PYSNARK_BACKEND"]`, `except KeyError: backend = "nobackend"`;
-`constants = poseidon_constants[backend]` if present, else `NotImplementedError` (`none`).
-The key is the ENVIRONMENT VARIABLE, not `pysnark.runtime.backend_name`. -/
-def lookupParams (env : Option String) : Option PoseidonParams :=
-  poseidonTable.lookup (env.getD "nobackend")
+/-- `backend = runtime.backend_name`; `constants = poseidon_constants[backend]` if the table has
+that key, else `NotImplementedError` (`none`).  The key is the name the selection code of
+`pysnark/runtime.py` reports (`Select.select`), NOT the `PYSNARK_BACKEND` environment variable;
+there is no fallback key. -/
+def lookupParams (backendName : String) : Option PoseidonParams :=
+  poseidonTable.lookup backendName
+
+/-- what `import pysnark.poseidon_hash` ends with in a fresh interpreter -/
+inductive ParamsOutcome
+  /-- the module-level `constants` is this table entry -/
+  | params (P : PoseidonParams)
+  /-- `raise NotImplementedError("Poseidon is currently not implemented for this backend")` -/
+  | notImplemented
+  /-- `from pysnark import runtime` itself raised (import error of the named backend, or no
+  backend at all): `poseidon_hash.py` never reaches its lookup -/
+  | runtimeFails
+
+/-- the lookup of `poseidon_hash.py` on a reported backend name -/
+def paramsOfName (backendName : String) : ParamsOutcome :=
+  match lookupParams backendName with
+  | some P => .params P
+  | none => .notImplemented
+
+/-- the parameter set in use after `import pysnark.poseidon_hash` under selection configuration `c`:
+`poseidon_hash.py` l.2 imports `pysnark.runtime` (running the selection code if it has not run),
+l.14 reads the name it reported -/
+def paramsInUse (c : Select.Config) : ParamsOutcome :=
+  match Select.select c with
+  | .ok name _ _ _ => paramsOfName name
+  | .importError _ => .runtimeFails
+  | .noBackend _ => .runtimeFails
 
 /-! ## `permute` -/
 
